@@ -369,6 +369,7 @@ Verdict(e) ==
      [] e.op = "history"   -> EvHistory(e)
      [] e.op = "shared_build" -> EvSharedBuild(e)
      [] e.op = "derive_poke" -> EvDerivePoke(e)
+     [] e.op = "determinism" -> Fail("result_as_fresh", e.later = e.first)      \* PuanAPI.Determinism: a call's result is a function of its arguments
      [] e.op = "results_stable" -> Fail("result_stable", e.later = e.first)
      [] e.op = "l_evaluate" -> EvLEvaluate(e)
      [] e.op = "l_negate"  -> EvLNegate(e)
